@@ -8,6 +8,7 @@ import (
 	"os/exec"
 	"path/filepath"
 	"strings"
+	"sync"
 	"time"
 )
 
@@ -160,34 +161,50 @@ func (vc *VC) Discharge(obls []*Obligation, workDir string, quickMs, slowMs int)
 		o.Solver = "z3-new(incremental)"
 		o.Ms = per
 	}
-	// second chance for everything not as expected
+	// second chance for everything not as expected: standalone, three solvers raced, in parallel
+	var wg sync.WaitGroup
+	var mu sync.Mutex
+	var firstErr error
+	slots := make(chan struct{}, 4)
+	budget := 12 // at most this many slow retries per function
 	for i, o := range obls {
-		want := "unsat"
-		if o.Cover {
+		if o.Cover || o.Result == "unsat" {
 			continue
 		}
-		if o.Result == want {
+		if budget == 0 {
 			continue
 		}
-		sf := fmt.Sprintf("%s.obl%d.smt2", base, i)
-		if err := os.WriteFile(sf, []byte(vc.Standalone(o, true)), 0o644); err != nil {
-			return err
-		}
-		res := raceSolvers(sf, slowMs)
-		if res.err != nil {
-			return fmt.Errorf("%s obligation %s: %v (script %s)", vc.key, o.Name, res.err, sf)
-		}
-		o.Result, o.Solver, o.Ms = res.result, res.solver, res.dur.Milliseconds()
-		if res.result == "sat" {
-			o.Model = res.raw
-		} else if res.result == "unknown" {
-			o.Model = res.raw
-		}
-		if o.Result == want {
-			os.Remove(sf)
-		}
+		budget--
+		i, o := i, o
+		wg.Add(1)
+		go func() {
+			defer wg.Done()
+			slots <- struct{}{}
+			defer func() { <-slots }()
+			sf := fmt.Sprintf("%s.obl%d.smt2", base, i)
+			if err := os.WriteFile(sf, []byte(vc.Standalone(o, true)), 0o644); err != nil {
+				mu.Lock()
+				firstErr = err
+				mu.Unlock()
+				return
+			}
+			res := raceSolvers(sf, slowMs)
+			mu.Lock()
+			defer mu.Unlock()
+			if res.err != nil {
+				firstErr = fmt.Errorf("%s obligation %s: %v (script %s)", vc.key, o.Name, res.err, sf)
+				return
+			}
+			o.Result, o.Solver, o.Ms = res.result, res.solver, res.dur.Milliseconds()
+			if res.result != "unsat" {
+				o.Model = res.raw
+			} else {
+				os.Remove(sf)
+			}
+		}()
 	}
-	return nil
+	wg.Wait()
+	return firstErr
 }
 
 type raceResult struct {
